@@ -15,8 +15,8 @@ pub fn def() -> PropDef {
         generate,
         check,
         nontrivial,
-        rule: "handle-manipulation programs of 1-3 clients (clone, downgrade, upgrade, conversions between all kinds, move between clients, drop in any order, drop-then-join) interleaved with submissions, with interval / interval_with / delayed timers and a broker subscription active and, in a sub-family, the service registry as the only strong holder; no stop request, no fault; x seeded schedules; oracle = strong-handle census replayed from the log vs. actor liveness, plus task census at quiescence; non-trivial = the last strong handle went away while an accepted message was still unhandled or while a weak handle, timer or subscription existed; distinct = distinct order of client-op and callback events",
-        needed_probes: &["c05_alive_with_handles_checked", "c05_last_drop_drain_checked", "c05_upgrade_after_last_drop", "c05_died_before_weak_dropped", "c05_registry_holder", "c05_prompt_termination_checked"],
+        rule: "handle-manipulation programs of 1-3 clients (clone, downgrade, upgrade, conversions between all kinds, move between clients, drop in any order, drop-then-join) interleaved with submissions, with interval / interval_with / delayed timers and a broker subscription active and, in sub-families, the service registry or a parent's child list as the only strong holder; no stop request, no fault; x seeded schedules; oracle = strong-handle census replayed from the log vs. actor liveness, plus task census at quiescence; non-trivial = the last strong handle went away while an accepted message was still unhandled or while a weak handle, timer or subscription existed; distinct = distinct order of client-op and callback events",
+        needed_probes: &["c05_alive_with_handles_checked", "c05_last_drop_drain_checked", "c05_upgrade_after_last_drop", "c05_died_before_weak_dropped", "c05_registry_holder", "c05_child_list_holder", "c05_prompt_termination_checked"],
         quick_runs: 100_000,
         thorough_runs: 2_000_000,
         block: 1,
@@ -103,6 +103,13 @@ fn manipulate(g: &mut G, sl: &mut Slots, c: usize, nclients: usize, ops: &mut Ve
 pub fn generate(g: &mut G, index: u64) -> Scenario {
     if index % 8 == 7 {
         return generate_registry(g);
+    }
+    if index % 8 == 3 {
+        // sub-family: a parent's child list is the (only) strong holder - C16's tree programs,
+        // judged here by C16's rule "a child does not end while its parent runs"
+        let mut sc = super::c16::generate(g, index);
+        sc.profile = "C16".to_string(); // (oracles applied across profiles go by this tag)
+        return sc;
     }
     let owning = g.chance(1, 2);
     let mut spec = ActorSpec {
@@ -241,8 +248,21 @@ fn generate_registry(g: &mut G) -> Scenario {
     sc
 }
 
+fn is_tree(sc: &Scenario) -> bool {
+    sc.actors.iter().any(|a| a.on_start.iter().any(|w| matches!(w, Work::Child { .. })))
+        || sc.clients.iter().any(|c| c.ops.iter().any(|o| matches!(o, Op::Send { work, .. } | Op::Call { work, .. } if work.iter().any(|w| matches!(w, Work::Child { .. })))))
+}
+
 pub fn check(v: &View) -> Vec<Violation> {
     let mut out = vec![];
+    if is_tree(v.sc) {
+        crate::log::probe("c05_child_list_holder");
+        return super::c16::check(v)
+            .into_iter()
+            .filter(|x| x.rule == "child-ended-before-parent")
+            .map(|x| violation(P, "child-list-does-not-keep-alive", "", x.detail))
+            .collect();
+    }
     for a in v.actors.values() {
         let Some(aidx) = a.aidx else { continue };
         if aidx >= AIDX_SVC_A || v.actors_of(aidx).len() != 1 {
